@@ -151,18 +151,21 @@ Section Model.
     | TType _ _ => Err TypeErr
     end.
 
-  (* validator of bounded(c, ge=, gt=, le=, lt=) *)
+  (* validator of bounded(c, ge=, gt=, le=, lt=):
+       if not check_type(obj, numeric_type): return False
+       if ge is not None and obj <  ge: return False
+       if gt is not None and obj <= gt: return False
+       if le is not None and obj >  le: return False
+       if lt is not None and obj >= lt: return False
+       return True *)
+  Definition violates (R : Z -> Z -> bool) (v : val) (b : option num) : res bool :=
+    match b with None => Ok false | Some q => cmp R v q end.
+  Definition gate (r : res bool) (k : res bool) : res bool :=
+    match r with Err e => Err e | Ok true => Ok false | Ok false => k end.
   Definition bounded_validate (v : val) (c : cls) (ge gt le lt : option num) : res bool :=
-    if negb (check_cls v c) then Ok false else               (* not check_type(obj, numeric_type) *)
-    match (match ge with None => Ok false | Some q => cmp Z.ltb v q end) with   (* ge is not None and obj < ge *)
-    | Err e => Err e | Ok true => Ok false | Ok false =>
-    match (match gt with None => Ok false | Some q => cmp Z.leb v q end) with   (* gt is not None and obj <= gt *)
-    | Err e => Err e | Ok true => Ok false | Ok false =>
-    match (match le with None => Ok false | Some q => cmp Z.gtb v q end) with   (* le is not None and obj > le *)
-    | Err e => Err e | Ok true => Ok false | Ok false =>
-    match (match lt with None => Ok false | Some q => cmp Z.geb v q end) with   (* lt is not None and obj >= lt *)
-    | Err e => Err e | Ok true => Ok false | Ok false => Ok true
-    end end end end.
+    if negb (check_cls v c) then Ok false else
+    gate (violates Z.ltb v ge) (gate (violates Z.leb v gt)
+      (gate (violates Z.gtb v le) (gate (violates Z.geb v lt) (Ok true)))).
 
   Fixpoint check_type (t : ty) (v : val) {struct t} : res bool :=
     match t with
